@@ -358,6 +358,8 @@ def run_cli(case, watchdog=40.0):
     argv = build_argv(case, tmp)
     saved_env = {k: os.environ.pop(k) for k in ENV_KEYS if k in os.environ}
     old_instance = Session._instance
+    old_hook = threading.excepthook
+    threading.excepthook = lambda args: None      # lcc.Threads of generated scripts may end with a BaseException: keep stderr quiet
     real_run_suites = LP.run_suites
     out = {}
 
@@ -397,6 +399,7 @@ def run_cli(case, watchdog=40.0):
             os.environ.pop(k, None)
         os.environ.update(saved_env)
         Session._instance = old_instance
+        threading.excepthook = old_hook
     try:
         obs = {"argv": [a.replace(tmp, "<tmp>") for a in argv], "hooks": side["hooks"], "run_suites": side["run_suites"],
                "load_suites": side["load_suites"], "load_fixtures": side["load_fixtures"],
